@@ -932,6 +932,9 @@ def ModT.ok (o : Oracles) : ModT → Prop
   | .relative n => o.maxStrDigits = 0 ∨ (digits n).length ≤ o.maxStrDigits
   | .month m _ => 1 ≤ m ∧ m ≤ 12
 
+instance (o : Oracles) (m : ModT) : Decidable (m.ok o) := by
+  cases m <;> simp only [ModT.ok] <;> exact inferInstance
+
 /-- the condition the form denotes, put at the front of its list -/
 def ModT.addTo : ModT → Parsed → Parsed
   | .amountOp op _ v, p => { p with amount := op.cond v :: p.amount }
